@@ -20,7 +20,8 @@ Subst1 == [Base EXCEPT !.root = "root", !.alloc_std = FALSE, !.alloc = PT(FALSE,
                        !.subs = <<[src |-> PT(FALSE, <<"m", "U">>), dst |-> PT(TRUE, <<"ext", "MyU">>)]>>]
 NoCodec == [Base EXCEPT !.codec = FALSE]
 
-SettingsPool == {Base, NoStd, Derived, Subst1}
+CompactAsNoCodec == [Derived EXCEPT !.codec = FALSE, !.root = "rt"]
+SettingsPool == {Base, NoStd, Derived, Subst1, CompactAsNoCodec}
 
 Id(n) == TPath(FALSE, <<n>>, <<>>)
 SubSrc(args) == TPath(FALSE, <<"m", "sub", "Sub">>, args)
@@ -64,6 +65,9 @@ SubRules == {
   Rule(SubSrc(<<Id("A")>>), Ext("Sub2", <<Id("A")>>)),
   Rule(SubSrc(<<Id("A"), Id("B"), Id("C")>>), Ext("Sub2", <<Id("C"), Id("A")>>)),
   Rule(SubSrc(<<>>), Ext("Sub2", <<U8T>>)),
+  \* source parameters on a segment that is not the last one, directly and nested
+  Rule(SubSrc(<<Id("A"), Id("B")>>), QPath(TRUE, <<"ext", "Generic", "Output">>, <<<<>>, <<Id("A"), Id("B")>>, <<>>>>)),
+  Rule(SubSrc(<<Id("A"), Id("B")>>), Ext("Static", <<QPath(TRUE, <<"ext", "Generic", "Output">>, <<<<>>, <<Id("B")>>, <<>>>>), Id("A")>>)),
   \* declared source parameters that are spelled like the generator's own generic names
   Rule(SubSrc(<<Id("_0"), Id("_1")>>), Ext("Sub2", <<Id("_0"), Id("_1")>>)),
   Rule(SubSrc(<<Id("_1"), Id("_0")>>), Ext("W", <<Ext("Sub2", <<Id("_0"), Id("_1")>>), Id("_1")>>)),
